@@ -70,6 +70,8 @@ fn corpus() -> Vec<Scenario> {
         s("raw", 32, 32, &[OUT1], "one<CR>two<CR><UP><UP><DN><CR>"),
         s("raw", 32, 8, &[], "abc<CR>defg<CR>é<CR><UP><UP><UP><DN><DN><DN>"),
         s("raw", 32, 32, &[], "abc<CR>xy<L><UP>"),
+        s("raw", 32, 32, &[], "alpha<CR>beta<CR><UP>2<UP><UP><DN>"),
+        s("raw", 32, 32, &[], "alpha<CR>beta<CR><UP><BS><L>x<UP><DN><DN>"),
         s("raw", 32, 32, &[], "h<TAB>"),
         s("raw", 32, 32, &[], "he<L><TAB><CR>"),
         s("raw", 32, 32, &[], "abc<L><L><W:hello\nworld>"),
